@@ -8,4 +8,5 @@ VIEW View
 INVARIANT InvUniqueLiveNames
 INVARIANT RootStays
 PROPERTY PAppendOnly
+PROPERTY PFrozenWhenOff
 CHECK_DEADLOCK FALSE
